@@ -1,4 +1,5 @@
 import TrackVerif.Conv.Lemmas
+import TrackVerif.Conv.Object
 import TrackVerif.Conv.NumRat
 /-
   C12 — A start-date override shifts every timestamp by one constant and nothing else.
@@ -112,6 +113,21 @@ where
     cases Spec.specLaps env o (Spec.dateShift env o s')
       (if o.vehicle ≠ "" then o.vehicle else s.vehicle) 1 (innerLaps s'.laps) <;>
       simp [Outcome.map, Outcome.bind]
+
+/-- **a converter may be used for any number of sessions**: the date adjustment lives in the
+    converter between calls, `LapTimer` resets it on entry, so every session of a sequence is
+    converted exactly as a new converter would convert it — and the statements above apply to it -/
+theorem converter_history_does_not_matter (env : Env α) (c : Converter) (ss : List (Session α)) :
+    Converter.run env c ss = ss.map (lapTimer env c.opts) :=
+  Converter.run_fresh env c ss
+
+/-- the mechanism of the defect repaired in 4443d20: once an adjustment is in the converter, a
+    start date never recomputes it — so without the reset on entry the next session would be moved
+    by the previous session's amount -/
+theorem kept_adjustment_is_never_recomputed (env : Env α) (o : Opts) (a : Int) (r : Record α) :
+    nextState env o ⟨some a⟩ r = .ok ⟨some a⟩ := by
+  unfold nextState
+  cases o.startDate <;> rfl
 
 /-- without the option all dates equal the logged ones (the shift is 0) -/
 theorem no_option (env : Env α) (o : Opts) (s : Session α) (h : o.startDate = none) :
